@@ -253,4 +253,48 @@ theorem normalize_space_wellSpaced (s : Str) :
 example : normalizeSpace " \ta  b\n c ".toList = "a b c".toList ∧ wellSpaced "a b c".toList = true ∧
     wellSpaced "a  b".toList = false ∧ wellSpaced "a ".toList = false := by decide
 
+theorem wellSpaced_tail (c : Char) (r : Str) (h : wellSpaced (c :: r) = true) : wellSpaced r = true := by
+  simp only [wellSpaced, Bool.and_eq_true] at h; exact h.2
+
+theorem go_fixed : ∀ (t : Str), wellSpaced t = true →
+    normalizeSpace.go t false = t ∧
+    (∀ hd tl, t = hd :: tl → isXmlWs hd = false → normalizeSpace.go t true = ' ' :: t) := by
+  intro t
+  induction t with
+  | nil => intro _; exact ⟨rfl, fun _ _ h => by cases h⟩
+  | cons c r ih =>
+    intro h
+    have hr := wellSpaced_tail c r h
+    obtain ⟨ih1, ih2⟩ := ih hr
+    constructor
+    · by_cases hc : isXmlWs c = true
+      · simp only [wellSpaced, hc, if_true, Bool.and_eq_true, beq_iff_eq] at h
+        obtain ⟨⟨rfl, hd⟩, _⟩ := h
+        cases r with
+        | nil => simp at hd
+        | cons d r' =>
+          have hd' : isXmlWs d = false := by simpa using hd
+          simp only [normalizeSpace.go, hc, if_true]
+          exact ih2 d r' rfl hd'
+      · have hc' : isXmlWs c = false := by simpa using hc
+        simp [normalizeSpace.go, hc', ih1]
+    · intro hd tl e hhd
+      cases e
+      simp [normalizeSpace.go, hhd, ih1]
+
+/-- a string that is already normalized is left as it is -/
+theorem normalize_space_fixed (t : Str) (h : wellSpaced t = true)
+    (hh : ∀ c, t.head? = some c → isXmlWs c = false) : normalizeSpace t = t := by
+  cases t with
+  | nil => rfl
+  | cons c r =>
+    have hc : isXmlWs c = false := hh c rfl
+    unfold normalizeSpace
+    simp only [List.dropWhile, hc]
+    rw [(go_fixed r (wellSpaced_tail c r h)).1]
+
+/-- normalize-space is idempotent, for every string -/
+theorem normalize_space_idempotent (s : Str) : normalizeSpace (normalizeSpace s) = normalizeSpace s :=
+  normalize_space_fixed _ (normalize_space_wellSpaced s).1 (normalize_space_wellSpaced s).2
+
 end XmlRs.C09
